@@ -35,6 +35,10 @@ def stats(path):
     if m:
         res['generated'] = int(m.group(1).replace(',', ''))
         res['distinct'] = int(m.group(2).replace(',', ''))
+    sm = re.search(r'The number of states generated: (\d+)', txt)       # simulation mode
+    if sm and 'generated' not in res:
+        res['generated'] = res['distinct'] = int(sm.group(1))
+        res['simulation'] = True
     d = re.search(r'depth of the complete state graph search is (\d+)', txt)
     if d:
         res['depth'] = int(d.group(1))
